@@ -41,7 +41,7 @@ class Contract:
         self.ensures_names = kw.pop("ensures_names", None)
         self.extra = kw
         if kw:
-            unknown = set(kw) - {"doc", "known", "not_decided"}
+            unknown = set(kw) - {"doc", "known", "not_decided", "denominators"}
             if unknown:
                 raise ValueError(f"contract {target}: unknown keys {sorted(unknown)}")
 
@@ -137,6 +137,8 @@ class Registry:
     def make_value(self, I: Interp, typ, name: str, env: dict | None = None):
         ctx = I.ctx
         if callable(typ):
+            if typ.__code__.co_argcount >= 3:
+                return typ(I, name, env or {})
             return typ(I, name)
         typ = typ.strip()
         if typ.endswith("?"):
